@@ -278,6 +278,8 @@ fn run_stress<const N: usize>(readers: usize, millis: u64, seed: u64, rec: &mut 
     let finished: &'static AtomicU64 = Box::leak(Box::new(AtomicU64::new(0)));
     let overlaps: &'static AtomicU64 = Box::leak(Box::new(AtomicU64::new(0)));
     let reads: &'static AtomicU64 = Box::leak(Box::new(AtomicU64::new(0)));
+    // C06: `reloaded_global` answers `true` at most once per rewrite, however many threads poll it
+    let global_trues: &'static AtomicU64 = Box::leak(Box::new(AtomicU64::new(0)));
     let deadline = Instant::now() + Duration::from_millis(millis);
 
     let reloader = std::thread::spawn(move || {
@@ -344,6 +346,7 @@ fn run_stress<const N: usize>(readers: usize, millis: u64, seed: u64, rec: &mut 
             }
             let s1 = started.load(SeqCst);
             reads.fetch_add(1, SeqCst);
+            for _ in 0..3 { if handle.reloaded_global() { global_trues.fetch_add(1, SeqCst); } }
             match first {
                 Err(t) => bad.push(format!("torn-read value read under a guard mixes versions: {t}")),
                 Ok(v) => {
@@ -378,6 +381,9 @@ fn run_stress<const N: usize>(readers: usize, millis: u64, seed: u64, rec: &mut 
     bad.extend(rb);
     let mut kinds = [0u64; 4];
     for h in rs { match h.join() { Ok((b, k)) => { bad.extend(b); for i in 0..4 { kinds[i] += k[i]; } } Err(_) => bad.push("harness-panic reader thread panicked".into()) } }
+    let gt = global_trues.load(SeqCst);
+    if gt > versions { bad.push(format!("reported-more-than-once reloaded_global answered true {gt} times to the polling readers although only {versions} rewrites happened")); }
+    rec.stat(format!("stress/reloaded_global-true={}", if gt == 0 { "0" } else { ">0" }));
     let bucket = |x: u64| -> &'static str { match x { 0 => "0", 1..=9 => "1-9", 10..=99 => "10-99", 100..=999 => "100-999", _ => "1000+" } };
     rec.stat(format!("stress/reloads={}", bucket(versions)));
     rec.stat(format!("stress/reads={}", bucket(reads.load(SeqCst))));
